@@ -213,4 +213,172 @@ example : (put ⟨false, false⟩ ⟨[], none⟩ (.obj [.request (some [])])).1 
 example : (put ⟨true, true⟩ ⟨[], none⟩ (.obj [.request (some [⟨.reason, [.eff 1]⟩])])).1 = .refused400 := by decide
 example : (put ⟨true, true⟩ ⟨[], none⟩ (.obj [])) = (.ok, ⟨[], some []⟩) := by decide
 
+
+/-! ## the per-key dispatch: which field every accepted update ends up in -/
+
+/-- the dispatch tables: a key reaches a setter exactly when the handler's `if/elif` chain names it -/
+theorem request_keys_dispatch : ∀ k : Key, (reqField k).isSome = k.forRequest := by
+  intro k; cases k <;> rfl
+
+theorem response_keys_dispatch : ∀ k : Key, (respField k).isSome = k.forResponse := by
+  intro k; cases k <;> rfl
+
+private theorem scalarOps_ids (f : Field) : ∀ st, (scalarOps f st).map (·.2.id) = stepsEffects st := by
+  intro st; induction st with
+  | nil => rfl
+  | cons s r ih => cases s <;> simp only [scalarOps, stepsEffects, List.map_cons, ih] <;> rfl
+
+private theorem addOps_ids (f : Field) : ∀ st, (addOps f st).map (·.2.id) = stepsEffects st := by
+  intro st; induction st with
+  | nil => rfl
+  | cons s r ih => cases s <;> simp only [addOps, stepsEffects, List.map_cons, ih] <;> rfl
+
+private theorem listOps_ids (f : Field) : ∀ st, (listOps f st).map (·.2.id) = stepsEffects st := by
+  intro st; induction st with
+  | nil => rfl
+  | cons s r ih => cases s <;> simp only [listOps, stepsEffects, List.map_cons, ih, addOps_ids] <;> rfl
+
+private theorem leavesOps_ids (field : Key → Option Field) (known : Key → Bool)
+    (hk : ∀ k, (field k).isSome = known k) : ∀ ls, leavesValid known ls = true →
+    (leavesOps field ls).map (·.2.id) = leavesEffects ls := by
+  intro ls; induction ls with
+  | nil => intro _; rfl
+  | cons l r ih =>
+    intro h
+    simp [leavesValid] at h
+    obtain ⟨⟨hkn, _⟩, hr⟩ := h
+    have : (field l.key).isSome = true := by rw [hk]; exact hkn
+    obtain ⟨f, hf⟩ := Option.isSome_iff_exists.mp this
+    simp only [leavesOps, leafOps, hf, leavesEffects, List.map_append, ih hr]
+    by_cases hl : l.key.isList = true <;> simp [hl, listOps_ids, scalarOps_ids]
+
+/-- **the typed writes are exactly the committed effects.** For a valid document, the ids of `Doc.ops` (the writes with
+    their target fields) are, in order, the effects that `put` appends to the flow state. -/
+theorem ops_ids_eq_effects (k : Kind) (d : Doc) (h : d.valid k = true) : d.ops.map (·.2.id) = d.effects := by
+  cases d with
+  | badJson => simp [Doc.valid] at h
+  | notObject => simp [Doc.valid] at h
+  | obj ts =>
+    simp only [Doc.valid] at h
+    simp only [Doc.ops, Doc.effects]
+    induction ts with
+    | nil => rfl
+    | cons t r ih =>
+      simp [topsValid] at h
+      simp only [topsOps, topsEffects, List.map_append, ih h.2]
+      congr 1
+      cases t with
+      | request sub =>
+        cases sub with
+        | none => simp [Top.valid] at h
+        | some ls =>
+          have := h.1; simp [Top.valid] at this
+          exact leavesOps_ids reqField Key.forRequest request_keys_dispatch ls this.2
+      | response sub =>
+        cases sub with
+        | none => simp [Top.valid] at h
+        | some ls =>
+          have := h.1; simp [Top.valid] at this
+          exact leavesOps_ids respField Key.forResponse response_keys_dispatch ls this.2
+      | marked st => exact scalarOps_ids _ st
+      | comment st => exact scalarOps_ids _ st
+      | unknown => simp [Top.valid] at h
+
+/-- the field-level PUT accepts and refuses exactly like the transaction model -/
+theorem putF_status (k : Kind) (σ : Flow) (fs : Fields) (d : Doc) : (putF k fs d).1 = (put k σ d).1 := by
+  rcases put_all_or_nothing k σ d with ⟨hv, hs, _⟩ | ⟨hv, hs, _⟩ <;> simp [putF, hv, hs]
+
+/-- **atomicity on the fields**: a refused update leaves every field as it was -/
+theorem putF_refused_unchanged (k : Kind) (fs : Fields) (d : Doc) (h : (putF k fs d).1 ≠ .ok) :
+    (putF k fs d).2 = fs := by
+  unfold putF at h ⊢
+  by_cases hv : d.valid k = true <;> simp [hv] at h ⊢
+
+private theorem interp_append (fs : Fields) (a b : List (Field × Op)) :
+    interp fs (a ++ b) = interp (interp fs a) b := by
+  induction a generalizing fs with
+  | nil => rfl
+  | cons w r ih => simp [interp, ih]
+
+private theorem applyOp_other (fs : Fields) (w : Field × Op) (f : Field) (h : w.1 ≠ f) : applyOp fs w f = fs f := by
+  have h' : ¬ f = w.1 := fun e => h e.symm
+  unfold applyOp
+  cases w.2 with
+  | set i => simp [Fields.put, h']
+  | clear i => simp [Fields.put, h']
+  | add i => cases fs w.1 <;> simp [Fields.put, h']
+
+private theorem interp_untouched (f : Field) : ∀ (ops : List (Field × Op)) (fs : Fields),
+    (∀ w ∈ ops, w.1 ≠ f) → interp fs ops f = fs f := by
+  intro ops; induction ops with
+  | nil => intro fs _; rfl
+  | cons w r ih =>
+    intro fs h
+    simp only [interp]
+    rw [ih _ (fun x hx => h x (List.mem_cons_of_mem _ hx)), applyOp_other fs w f (h w List.mem_cons_self)]
+
+/-- ids of the `add`s on field `f` -/
+def addsOn (f : Field) : List (Field × Op) → List Nat
+  | [] => []
+  | (g, .add i) :: r => if g = f then i :: addsOn f r else addsOn f r
+  | _ :: r => addsOn f r
+
+private theorem interp_adds (f : Field) : ∀ (ops : List (Field × Op)) (fs : Fields) (l : List Nat),
+    fs f = .pairs l → (∀ w ∈ ops, w.1 = f → ∃ i, w.2 = .add i) →
+    interp fs ops f = .pairs (l ++ addsOn f ops) := by
+  intro ops; induction ops with
+  | nil => intro fs l hl _; simp [interp, addsOn, hl]
+  | cons w r ih =>
+    intro fs l hl h
+    obtain ⟨g, op⟩ := w
+    by_cases hg : g = f
+    · subst hg
+      obtain ⟨i, hi⟩ := h (g, op) List.mem_cons_self rfl
+      simp only at hi; subst hi
+      have hstep : applyOp fs (g, .add i) g = .pairs (l ++ [i]) := by simp [applyOp, hl, Fields.put]
+      simp only [interp]
+      rw [ih _ (l ++ [i]) hstep (fun x hx => h x (List.mem_cons_of_mem _ hx))]
+      simp [addsOn]
+    · have hstep : applyOp fs (g, op) f = .pairs l := by rw [applyOp_other fs (g, op) f hg, hl]
+      simp only [interp]
+      rw [ih _ l hstep (fun x hx => h x (List.mem_cons_of_mem _ hx))]
+      cases op <;> simp [addsOn, hg]
+
+/-- an accepted update does not touch a field no key of the document targets -/
+theorem putF_untouched (k : Kind) (fs : Fields) (d : Doc) (f : Field) (hv : d.valid k = true)
+    (h : ∀ w ∈ d.ops, w.1 ≠ f) : (putF k fs d).2 f = fs f := by
+  simp [putF, hv, interp_untouched f d.ops fs h]
+
+/-- **last writer wins (scalar fields)**: after an accepted update a field holds the value of the last key that targets it -/
+theorem putF_scalar_last_writer (k : Kind) (fs : Fields) (d : Doc) (f : Field) (i : Nat)
+    (pre post : List (Field × Op)) (hv : d.valid k = true) (hd : d.ops = pre ++ (f, .set i) :: post)
+    (hpost : ∀ w ∈ post, w.1 ≠ f) : (putF k fs d).2 f = .scalar i := by
+  simp only [putF, hv, if_true, hd]
+  rw [interp_append]
+  simp only [interp]
+  rw [interp_untouched f post _ hpost]
+  simp [applyOp, Fields.put]
+
+/-- **header lists are replaced as a whole**: after an accepted update a header/trailer field holds exactly the pairs
+    added after its last `clear`, in order -/
+theorem putF_list_replaced (k : Kind) (fs : Fields) (d : Doc) (f : Field) (c : Nat)
+    (pre post : List (Field × Op)) (hv : d.valid k = true) (hd : d.ops = pre ++ (f, .clear c) :: post)
+    (hpost : ∀ w ∈ post, w.1 = f → ∃ i, w.2 = .add i) : (putF k fs d).2 f = .pairs (addsOn f post) := by
+  simp only [putF, hv, if_true, hd]
+  rw [interp_append]
+  simp only [interp]
+  have h0 : applyOp (interp fs pre) (f, .clear c) f = .pairs [] := by simp [applyOp, Fields.put]
+  rw [interp_adds f post _ [] h0 hpost]
+  simp
+
+/-! non-vacuity for the dispatch theorems -/
+example : (putF ⟨true, true⟩ (fun _ => .orig)
+    (.obj [.request (some [⟨.path, [.eff 1]⟩, ⟨.headers, [.eff 2, .eff 3, .eff 4]⟩, ⟨.path, [.eff 5]⟩])])).2 .reqPath = .scalar 5 := by
+  decide
+example : (putF ⟨true, true⟩ (fun _ => .orig)
+    (.obj [.request (some [⟨.headers, [.eff 2, .eff 3, .eff 4]⟩])])).2 .reqHeaders = .pairs [3, 4] := by decide
+example : (putF ⟨true, true⟩ (fun _ => .orig)
+    (.obj [.request (some [⟨.path, [.eff 1]⟩, ⟨.port, [.fail]⟩])])).2 .reqPath = .orig := by decide
+example : reqField .reason = none ∧ respField .method = none ∧ respField .code = some .respCode := by decide
+
 end MitmVerif.Props.C47
